@@ -312,21 +312,12 @@ the low watermark is queried; if the start of the window has been deleted (`from
 the range remains** (`low ≥ to`: MarkRecoveryComplete) and otherwise **moved to the oldest retained record**
 (UpdateRecoveryRequest(p, low, to)); a window that is still intact is left alone; a failing query ends the handler -/
 theorem translated_truncationBody (σ : Env) :
-    let p := σ "partition.partition.Partition"
-    let low := σ "rc.consumer.QueryWatermarkOffsets#0"
-    obs Trans.truncationBody σ =
-      ⟨[("rc.consumer.QueryWatermarkOffsets", [σ "rc.topic", p, 10000])] ++
-        (if σ "rc.consumer.QueryWatermarkOffsets#2" ≠ 0 then []
-         else if σ "partition.fromOffset" < low then
-           (if low ≥ σ "partition.toOffset" then [("rc.tracker.MarkRecoveryComplete", [p, σ "partition.toOffset"])]
-            else [("rc.tracker.UpdateRecoveryRequest", [p, low, σ "partition.toOffset"])])
-         else []),
-       (if σ "rc.consumer.QueryWatermarkOffsets#2" ≠ 0 then some [] else none), false⟩ := by
+    obs Trans.truncationBody σ = TransExpected.truncationBody σ := by
   by_cases h1 : σ "rc.consumer.QueryWatermarkOffsets#2" = 0 <;>
   by_cases h2 : σ "partition.fromOffset" < σ "rc.consumer.QueryWatermarkOffsets#0" <;>
   by_cases h3 : σ "rc.consumer.QueryWatermarkOffsets#0" ≥ σ "partition.toOffset" <;>
   by_cases h4 : σ "rc.tracker.MarkRecoveryComplete#0" = 0 <;> by_cases h5 : σ "rc.tracker.UpdateRecoveryRequest#0" = 0 <;>
-  minigo_simp [Trans.truncationBody, h1, h2, h3, h4, h5] <;> (try omega)
+  minigo_simp [TransExpected.truncationBody, Trans.truncationBody, h1, h2, h3, h4, h5] <;> (try omega)
 
 end Translated
 
